@@ -18,30 +18,52 @@ MOVES = [
 ]
 
 
+def _owner_handle(F, b, depth=0, seen=None):
+    """Handle type whose own code a body belongs to: the inherent impl it sits in, or - for a private free/nested function - the
+    common owner of all its local callers (`fn drop_slow` nested inside `Arc::drop_inner` is still Arc's release path).
+    Returns (handle name or None, is-trait-impl path or None)."""
+    imp = b.get("impl") or {}
+    if imp:
+        return F.handle_name(imp["self_ty"]), imp.get("trait")
+    if depth > 3 or balance.is_api(F, b):
+        return None, None
+    seen = seen or set()
+    if b["key"] in seen:
+        return None, None
+    seen = seen | {b["key"]}
+    owners = set()
+    for c in F.body_list:
+        if c["key"] == b["key"] or c["kind"] == "Closure":
+            continue
+        if any(bl["term"]["k"] == "call" and balance._callee_key(bl["term"]) == b["key"] for bl in c["blocks"]):
+            owners.add(_owner_handle(F, c, depth + 1, seen))
+    if len(owners) == 1:
+        return next(iter(owners))
+    return None, None
+
+
 def rule_funnel(ctx, rep):
     for tag, F, E in ctx.each():
         for b, bi, t, cls in balance.count_sites(F):
             if cls in ("atomic_load", "fence"):
                 continue
-            imp = b.get("impl") or {}
-            hn = F.handle_name(imp["self_ty"]) if imp else None
+            hn, trait_ = _owner_handle(F, b)
             ik = "%s/%s" % (b["key"], cls)
             allowed = ("Arc", "UniqueArc") if cls == "atomic_new" else ("Arc",)
             if cls == "atomic_other":
                 rep.bad("R-FUNNEL", ik, "the count word is accessed by something other than new/fetch_add/fetch_sub/load (%s): the balance algebra cannot account for it" % (t["resolved"]["def"]), F.loc(b, t["span"]), tag)
-            elif hn in allowed and not imp.get("trait") or (hn == "Arc" and imp.get("trait") == "core::clone::Clone" and cls == "atomic_add"):
+            elif hn in allowed and not trait_ or (hn == "Arc" and trait_ in ("core::clone::Clone", "core::ops::drop::Drop") and cls in ("atomic_add", "atomic_sub")):
                 rep.ok("R-FUNNEL", ik, cfg=tag)
             else:
                 rep.bad("R-FUNNEL", ik, "a %s of the count word lives in %s, outside Arc's own clone/release/constructor code: every handle kind must funnel through Arc's single increment and decrement" % (cls, b["key"]), F.loc(b, t["span"]), tag)
         for b, bi, t, what in balance.free_sites(F):
-            imp = b.get("impl") or {}
-            hn = F.handle_name(imp["self_ty"]) if imp else None
+            hn, trait_ = _owner_handle(F, b)
             ik = "%s/free" % b["key"]
-            if hn in ("Arc", "UniqueArc") and not imp.get("trait"):
+            if hn in ("Arc", "UniqueArc") and (not trait_ or trait_ == "core::ops::drop::Drop"):
                 rep.ok("R-FUNNEL", ik, cfg=tag)
             else:
                 rep.bad("R-FUNNEL", ik, "a block is freed (%s) in %s, outside Arc's release path and UniqueArc's unwrap" % (what, b["key"]), F.loc(b, t["span"]), tag)
-    rep.floor("R-FUNNEL", 7, "1 increment, 1 decrement, 3 count initialisations, 2 free sites")
+    rep.floor("R-FUNNEL", 4, "at least one increment, one decrement, one count initialisation and one free site (today: 1 + 1 + 3 + 2; sites may be merged by refactors)")
 
 
 def rule_destroy(ctx, rep):
@@ -95,65 +117,50 @@ def rule_destroy(ctx, rep):
                 rep.bad("R-DESTROY", ik, "freeing helper %s has no caller: cannot establish shape S1" % key, F.loc(b), tag)
             elif ok:
                 rep.ok("R-DESTROY", ik, "S1", cfg=tag)
-        # the decrement's result must be compared with 1 and the free must sit on the ==1 side
-        for b in F.body_list:
-            for bi, t, found, B in balance.dec_gate(F, b):
-                ik = "%s/dec-gate" % b["key"]
-                frees = set()
-                for p in A.paths.get(b["key"], []):
-                    for e in p.events:
-                        if vget(e["vec"], "free_s1") or vget(e["vec"], "free_raw"):
-                            frees.add(e["bb"])
-                if not frees:
-                    rep.bad("R-DESTROY", ik, "the body that decrements the count word never reaches a free: the last release would leak the block", F.loc(b, t["span"]), tag)
+        # the decrement's result must be compared with 1 and the free must sit on the ==1 side (judged on release units: the
+        # decrement, its test and the free may be spread over private helpers)
+        for b0, unit, paths in balance.release_units(F, E):
+            for d in balance.gate_sides(F, unit, paths):
+                t = d["term"]
+                ik = "%s/dec-gate" % b0["key"]
+                if not any(balance.path_frees(p) for p in paths):
+                    rep.bad("R-DESTROY", ik, "the body that decrements the count word never reaches a free: the last release would leak the block", F.loc(unit, t["span"]), tag)
                     continue
-                if found is None:
-                    rep.bad("R-DESTROY", ik, "no branch tests the value returned by the decrement against a constant: the free is not guarded by `old == 1`", F.loc(b, t["span"]), tag)
+                if d["problem"] == "no-test":
+                    rep.bad("R-DESTROY", ik, "no branch tests the value returned by the decrement against a constant: the free is not guarded by `old == 1`", F.loc(unit, t["span"]), tag)
                     continue
-                sj, tt, c, k = found
-                truth = B.switch_truth(tt)
-                op = c["op"]
-                neg = c["neg"]
+                if d["problem"] == "not-eq-1":
+                    rep.bad("R-DESTROY", ik, "the decrement's old value is tested with `%s %s`, not `== 1`: the block would be freed while owners remain, or never" % (d["op"], d["k"]), F.loc(unit, d["switch"]["span"]), tag)
+                    continue
                 good = True
                 msg = None
-                if k != 1 or op not in ("Eq", "Ne"):
-                    good, msg = False, "the decrement's old value is tested with `%s %s`, not `== 1`: the block would be freed while owners remain, or never" % (op, k)
-                else:
-                    for tgt, tv in truth.items():
-                        cond_true = tv != neg  # truth of the comparison itself
-                        is_one = cond_true if op == "Eq" else not cond_true
-                        reach = B.reach(tgt)
-                        hits = bool(reach & frees)
-                        if hits and not is_one:
-                            good, msg = False, "a free is reachable on the branch where the decrement observed a value other than 1"
-                        if not hits and is_one:
-                            good, msg = False, "the branch where the decrement observed 1 does not reach the free"
+                if any(balance.path_frees(p) for p in d["paths_other"]):
+                    good, msg = False, "a free is reachable on the branch where the decrement observed a value other than 1"
+                if not any(balance.path_frees(p) for p in d["paths_one"]):
+                    good, msg = False, "the branch where the decrement observed 1 does not reach the free"
                 if good:
                     rep.ok("R-DESTROY", ik, cfg=tag)
                 else:
-                    rep.bad("R-DESTROY", ik, msg, F.loc(b, tt["span"]), tag)
+                    rep.bad("R-DESTROY", ik, msg, F.loc(unit, d["switch"]["span"]), tag)
                 if good:
                     # every way out of the last owner's release - return, or unwinding started by user code (a panicking payload
                     # destructor) - has returned the block to the allocator exactly once
-                    ik2 = "%s/last-owner-exits" % b["key"]
-                    one_tgts = set(tgt for tgt, tv in truth.items() if ((tv != neg) if op == "Eq" else not (tv != neg)))
+                    ik2 = "%s/last-owner-exits" % b0["key"]
                     worst = None
                     n_exits = 0
-                    for p in A.paths.get(b["key"], []):
-                        blocks = list(p.blocks)
-                        on_one = any(blocks[i] == sj and blocks[i + 1] in one_tgts for i in range(len(blocks) - 1))
-                        if not on_one or p.notes:
+                    for p in d["paths_one"]:
+                        if p.notes:
                             continue
                         if p.exit == "unw" and (p.origin or "std") not in ("user", "panic"):
                             continue
                         n_exits += 1
-                        nfree = vget(p.vec, "free_s1") + vget(p.vec, "free_raw")
+                        nfree = balance.path_frees(p)
                         if nfree != 1 and worst is None:
                             worst = (p, nfree)
                     if worst:
                         p, nfree = worst
                         how = "returns" if p.exit == "ret" else "unwinds (started by %s)" % ("user code, e.g. a panicking payload destructor" if p.origin == "user" else "a library panic")
-                        rep.bad("R-DESTROY", ik2, balance.path_report(F, b, p, "the release that observed the last owner %s having returned the block to the allocator %d times instead of once: %s" % (how, nfree, "the memory is leaked" if nfree == 0 else "double free")), F.loc(b, tt["span"]), tag)
+                        rep.bad("R-DESTROY", ik2, balance.path_report(F, unit, p, "the release that observed the last owner %s having returned the block to the allocator %d times instead of once: %s" % (how, nfree, "the memory is leaked" if nfree == 0 else "double free")), F.loc(unit, d["switch"]["span"]), tag)
                     elif n_exits:
                         rep.ok("R-DESTROY", ik2, "%d exits" % n_exits, cfg=tag)
     rep.floor("R-DESTROY", 4, "S1 site, S2 site, decrement gate, last-owner exits")
@@ -247,7 +254,7 @@ def run(ctx, rep):
     c03.rule_gate_def(ctx, rep)  # shape S3 (an owner frees after observing `count == 1`) is only sound if that observation is the Acquire `== 1` gate over Release decrements
     rule_moves(ctx, rep)
     balance.rule_writeback(ctx, rep)
-    rep.floor("R-WRITEBACK", 1, "OffsetArc::make_mut")
+    rep.floor("R-WRITEBACK", 0, "OffsetArc::make_mut today; a copy-on-write that never moves the handle out of its place has nothing to write back")
     rep.floor("R-BAL", 150, "API bodies (default configuration has 170+)")
     for tag, F, E in ctx.each():
         if E.unmodelled:
